@@ -353,6 +353,9 @@ def c03_jobs(tier):
     ns = [1, 2, 3] if tier == "quick" else [1, 2, 3, 4, 5]
     for n in ns:
         jobs.append({"pkgdir": "io/seqio/fasta", "func": "VerifC03_Fasta", "params": {"n": n, "nonascii": 0}, "timeout_s": 600 if tier == "quick" else 3000})
+        jobs.append({"pkgdir": "io/seqio/fastq", "func": "VerifC03_Fastq", "params": {"n": n, "nonascii": 0}, "timeout_s": 600 if tier == "quick" else 3000})
+    jobs.append({"pkgdir": "io/seqio/fasta", "func": "VerifC03_Fasta", "params": {"n": 3, "nonascii": 1}})
+    jobs.append({"pkgdir": "io/seqio/fastq", "func": "VerifC03_Fastq", "params": {"n": 3, "nonascii": 1}})
     return jobs
 
 
@@ -382,6 +385,12 @@ def c01_jobs(tier):
     for k, (recs, nm, ds, mw) in enumerate(shapes):
         jobs.append(_fa("VerifC01_Fasta", recs, nm, ds, mw, alphabet=k % 3))
     jobs.append(_fa("VerifC01_Fasta", [20], 1, 0, 21, small=1))
+    for enc in range(5):
+        recs = [[2], [3], [1, 2], [0], [2]][enc] if tier == "quick" else [[2, 3], [3], [1, 2], [0, 4], [5]][enc]
+        p = {"records": len(recs), "name": 1 + enc % 2, "desc": (enc * 2) % 3, "encoding": enc}
+        for i, n in enumerate(recs):
+            p["len%d" % i] = n
+        jobs.append({"pkgdir": "io/seqio/fastq", "func": "VerifC01_Fastq", "params": p})
     return jobs
 
 
@@ -398,7 +407,12 @@ def c04_jobs(tier):
     shapes = [([3], 1, 1, 3), ([2, 2], 1, 0, 2)] if tier == "quick" else [([3], 1, 1, 3), ([2, 2], 1, 0, 2), ([5], 2, 2, 4), ([3, 0, 2], 1, 1, 3)]
     for (recs, nm, ds, mw) in shapes:
         jobs.append(_fa("VerifC04_Fasta", recs, nm, ds, mw))
-    jobs.append(_fa("VerifC04_Fasta", [20], 1, 0, 3))
+    jobs.append(_fa("VerifC04_Fasta", [18], 1, 0, 3))
+    for recs in ([[2], [1, 2]] if tier == "quick" else [[2], [1, 2], [4], [2, 0, 3]]):
+        p = {"records": len(recs), "name": 1, "desc": 1}
+        for i, n in enumerate(recs):
+            p["len%d" % i] = n
+        jobs.append({"pkgdir": "io/seqio/fastq", "func": "VerifC04_Fastq", "params": p})
     return jobs
 
 
